@@ -313,6 +313,7 @@ type vfWorld struct {
 	rng      *rand.Rand
 	snapAll  bool
 	noSnap   bool
+	rt       bool // real time, outside any synctest bubble (multi-writer family only)
 	stopped  bool
 	nWire    int
 	firstPid map[[2]int]int
@@ -423,6 +424,7 @@ type vfWorldOpt struct {
 	Trace   *vfTrace
 	Seed    int64
 	NoSnap  bool
+	RT      bool
 	SnapAll bool
 }
 
@@ -430,7 +432,7 @@ type vfWorldOpt struct {
 func vfNewWorld(o vfWorldOpt) *vfWorld {
 	w := &vfWorld{tr: o.Trace, t0: time.Now(), activity: make(chan struct{}, 1),
 		msgs: map[int]*vfMsg{}, byHash: map[[32]byte]int{}, frags: map[[32]byte][]vfFragRef{},
-		rng: rand.New(rand.NewSource(o.Seed)), noSnap: o.NoSnap, snapAll: o.SnapAll, label: o.Label}
+		rng: rand.New(rand.NewSource(o.Seed)), noSnap: o.NoSnap, snapAll: o.SnapAll, label: o.Label, rt: o.RT}
 	vfCurTrace = o.Trace
 	cfgs := [2]vfEpCfg{o.A.norm(), o.B.norm()}
 	for i := 0; i < 2; i++ {
@@ -585,6 +587,9 @@ func vfErrClass(err error) string {
 // ---------------------------------------------------------------- driver primitives
 
 func (w *vfWorld) quiesce() {
+	if w.rt {
+		return
+	}
 	synctest.Wait()
 	select {
 	case <-w.activity:
